@@ -194,6 +194,9 @@ def run_property(pid, tier="quick", seed=0, relock=False, only=None, verbose=Tru
                                                               "failing_input": js["failures"][0], "all": js["failures"]})
             res.violations.append({"replay": path})
 
+    if not only:
+        replay_known_witnesses(res, pid, known)
+
     # ---- 5. finite / native parts supplied by the property module
     if mod is not None and hasattr(mod, "extra_checks") and not only:
         try:
@@ -330,6 +333,24 @@ def finish(pid, tier, seed, res, kinds_now, level_claimed, assumptions, bounded_
     print(f"[{pid}] {n_dis}/{n_obl} obligations discharged, solver time {solver_time:.1f}s, level={level}, "
           f"violations={nviol}, known={len(res.known)}, exit={exit_code}, wall={time.time() - res.t0:.1f}s")
     return exit_code
+
+
+def replay_known_witnesses(res, pid, known):
+    """Every listed (open) finding that carries a native witness is replayed on the current tree: it is reported
+    as KNOWN-FINDING only while the witness still fails."""
+    for k in known:
+        if k.get("property") != pid or k.get("status") != "known" or not k.get("witness"):
+            continue
+        w = k["witness"]
+        r = native.run_script(os.path.join(VERIF, "native", "runtime_check.py"), input_json={
+            "module": w["module"], "name": w["name"], "seed": 0, "count": 0, "inputs": [w["input"]], "prefix": w.get("prefix")},
+            timeout=300)
+        js = r["json"] or {}
+        if js.get("failures"):
+            class _O:
+                oid = k["obligation"]
+            if not any(kk is k for kk, _ in res.known):
+                res.known.append((k, _O()))
 
 
 def cli_grid(res, pid, tier, seed, known, quick=24, thorough=200, kinds=None):
